@@ -621,4 +621,157 @@ theorem IndexCut.prefix {p p' : Str} (h : IndexCut p p') : p' <+: p := by
   · exact ⟨_, h.symm⟩
   · subst h; exact List.nil_prefix
 
+/-! ## at most one AMP marker is removed -/
+
+theorem matchLit_cons {p : Char} {ps : List Char} {s r : Str} (h : matchLit (p :: ps) s = some r) :
+    ∃ c cs, s = c :: cs ∧ ciMatch p c = true ∧ matchLit ps cs = some r := by
+  cases s with
+  | nil => simp [matchLit] at h
+  | cons c cs =>
+    simp only [matchLit] at h
+    by_cases hc : ciMatch p c = true
+    · simp only [hc, if_true] at h; exact ⟨c, cs, rfl, hc, h⟩
+    · simp [hc] at h
+
+theorem ciEq_length {pat : String} {w : Str} (h : ciEq pat w = true) : w.length = pat.toList.length := by
+  unfold ciEq at h
+  have h' : matchLit pat.toList w = some [] := by simpa using h
+  obtain ⟨pre, h1, h2, _, _⟩ := matchLit_split _ _ _ h'
+  simp at h1; rw [h1]; exact h2
+
+/-- the first two characters of something that reads `.amp` / `amp` ignoring case -/
+theorem ciEq_dotamp_head {w : Str} (h : ciEq ".amp" w = true) :
+    ∃ x0 x1 r, w = x0 :: x1 :: r ∧ ciMatch '.' x0 = true ∧ ciMatch 'a' x1 = true := by
+  have h' : matchLit ['.', 'a', 'm', 'p'] w = some [] := by simpa [ciEq] using h
+  obtain ⟨x0, r0, rfl, h0, h1⟩ := matchLit_cons h'
+  obtain ⟨x1, r1, rfl, h2, _⟩ := matchLit_cons h1
+  exact ⟨x0, x1, r1, rfl, h0, h2⟩
+
+theorem ciEq_amp_head {w : Str} (h : ciEq "amp" w = true) :
+    ∃ x0 r, w = x0 :: r ∧ ciMatch 'a' x0 = true := by
+  have h' : matchLit ['a', 'm', 'p'] w = some [] := by simpa [ciEq] using h
+  obtain ⟨x0, r0, rfl, h0, _⟩ := matchLit_cons h'
+  exact ⟨x0, r0, rfl, h0⟩
+
+/-- the characters of `.html` (ignoring case) and the end: none reads `a`, and only the first
+reads `.` — and then the next one reads `h`, not `a` -/
+def NoAmpStart : Str → Prop
+  | [] => True
+  | c :: cs => ciMatch 'a' c = false ∧
+      (ciMatch '.' c = true → match cs with | d :: _ => ciMatch 'a' d = false | [] => True) ∧ NoAmpStart cs
+
+theorem noAmpStart_no_cut {e : Str} (hn : NoAmpStart e) (b : Bool) (m e' : Str) (hm : m ≠ [])
+    (hcut : IsAmpCut b m e') (a : Str) (he : e = a ++ m ++ e') : False := by
+  induction a generalizing e with
+  | nil =>
+    obtain ⟨w, sl, hw, _, hc | ⟨_, hc, _⟩⟩ := hcut
+    · obtain ⟨x0, x1, r, rfl, h0, h1⟩ := ciEq_dotamp_head hc.1
+      subst hw; simp only [List.nil_append, List.cons_append] at he
+      subst he
+      simp only [NoAmpStart] at hn
+      have := hn.2.1 h0
+      simp [h1] at this
+    · obtain ⟨x0, r, rfl, h0⟩ := ciEq_amp_head hc
+      subst hw; simp only [List.nil_append, List.cons_append] at he
+      subst he
+      simp only [NoAmpStart] at hn
+      simp [h0] at hn
+  | cons x xs ih =>
+    simp only [List.cons_append] at he
+    subst he
+    simp only [NoAmpStart] at hn
+    exact ih hn.2.2 rfl
+
+theorem ampDel_noAmpStart {b : Bool} {e t : Str} (h : AmpDel b e t) (hn : NoAmpStart e) : t = e := by
+  induction h with
+  | nil => rfl
+  | keep _ c _ ih =>
+    simp only [NoAmpStart] at hn
+    rw [ih hn.2.2]
+  | cut b m hm hcut _ _ => exact (noAmpStart_no_cut hn b m _ hm hcut [] (by simp)).elim
+
+theorem atDollar_noAmpStart {e : Str} (h : atDollar e = true) : NoAmpStart e := by
+  have : e = [] ∨ e = ['\n'] := by
+    simp only [atDollar, Bool.or_eq_true, List.isEmpty_iff, beq_iff_eq] at h; exact h
+  rcases this with rfl | rfl
+  · trivial
+  · simp only [NoAmpStart]; decide
+
+theorem ciMatch_two {p q : Char} {c : Char} (hp : ciMatch p c = true) (hq : ciMatch q c = true)
+    (hp' : p ≠ 'i' ∧ p ≠ 's' ∧ p ≠ 'k') (hq' : q ≠ 'i' ∧ q ≠ 's' ∧ q ≠ 'k') : p = q := by
+  simp only [ciMatch, Bool.or_eq_true, Bool.and_eq_true, decide_eq_true_eq] at hp hq
+  have h1 : lowerChar c = p := by
+    rcases hp with ((h | h) | h) | h
+    · exact h
+    · exact absurd h.1 hp'.1
+    · exact absurd h.1 hp'.2.1
+    · exact absurd h.1 hp'.2.2
+  have h2 : lowerChar c = q := by
+    rcases hq with ((h | h) | h) | h
+    · exact h
+    · exact absurd h.1 hq'.1
+    · exact absurd h.1 hq'.2.1
+    · exact absurd h.1 hq'.2.2
+  rw [← h1, ← h2]
+
+theorem htmlTail_noAmpStart {e : Str} (h : htmlTail e = true) : NoAmpStart e := by
+  unfold htmlTail at h
+  have hl : ".html".toList = ['.', 'h', 't', 'm', 'l'] := rfl
+  rw [hl] at h
+  cases hm' : matchLit ['.', 'h', 't', 'm', 'l'] e with
+  | none => simp [hm'] at h
+  | some e2 =>
+    simp only [hm', Option.map_some, Option.getD_some] at h
+    obtain ⟨c1, r1, rfl, h1, hm1⟩ := matchLit_cons hm'
+    obtain ⟨c2, r2, rfl, h2, hm2⟩ := matchLit_cons hm1
+    obtain ⟨c3, r3, rfl, h3, hm3⟩ := matchLit_cons hm2
+    obtain ⟨c4, r4, rfl, h4, hm4⟩ := matchLit_cons hm3
+    obtain ⟨c5, r5, rfl, h5, hm5⟩ := matchLit_cons hm4
+    simp only [matchLit, Option.some.injEq] at hm5
+    subst hm5
+    have na : ∀ {q c : Char}, ciMatch q c = true → (q ≠ 'i' ∧ q ≠ 's' ∧ q ≠ 'k') → q ≠ 'a' → ciMatch 'a' c = false := by
+      intro q c hq hq' hne
+      cases ha : ciMatch 'a' c with
+      | false => rfl
+      | true => exact absurd (ciMatch_two ha hq (by decide) hq').symm hne
+    have nd : ∀ {q c : Char}, ciMatch q c = true → (q ≠ 'i' ∧ q ≠ 's' ∧ q ≠ 'k') → q ≠ '.' → ciMatch '.' c = false := by
+      intro q c hq hq' hne
+      cases ha : ciMatch '.' c with
+      | false => rfl
+      | true => exact absurd (ciMatch_two ha hq (by decide) hq').symm hne
+    have t := atDollar_noAmpStart h
+    simp only [NoAmpStart]
+    refine ⟨na h1 (by decide) (by decide), fun _ => na h2 (by decide) (by decide),
+      na h2 (by decide) (by decide), ?_, na h3 (by decide) (by decide), ?_,
+      na h4 (by decide) (by decide), ?_, na h5 (by decide) (by decide), ?_, t⟩
+    · intro hd; simp [nd h2 (by decide) (by decide)] at hd
+    · intro hd; simp [nd h3 (by decide) (by decide)] at hd
+    · intro hd; simp [nd h4 (by decide) (by decide)] at hd
+    · intro hd; simp [nd h5 (by decide) (by decide)] at hd
+
+/-- what follows an AMP marker holds no further one -/
+theorem isAmpCut_tail {b : Bool} {m e : Str} (h : IsAmpCut b m e) : NoAmpStart e := by
+  obtain ⟨w, sl, _, _, ⟨_, hd | ⟨_, hd⟩⟩ | ⟨_, _, hd⟩⟩ := h
+  · exact atDollar_noAmpStart hd
+  · exact htmlTail_noAmpStart hd
+  · exact atDollar_noAmpStart hd
+
+/-- `t` is `s`, or `s` minus exactly one AMP marker standing at its end -/
+def AmpCutOnce (b : Bool) (s t : Str) : Prop :=
+  t = s ∨ ∃ a m e, s = a ++ m ++ e ∧ t = a ++ e ∧ m ≠ [] ∧ IsAmpCut (lastSlash b a) m e
+
+/-- **at most one AMP marker is removed** -/
+theorem AmpDel.once {b : Bool} {s t : Str} (h : AmpDel b s t) : AmpCutOnce b s t := by
+  induction h with
+  | nil => left; rfl
+  | keep b c _ ih =>
+    rcases ih with rfl | ⟨a, m, e, rfl, rfl, hm, hcut⟩
+    · left; rfl
+    · right; exact ⟨c :: a, m, e, by simp, by simp, hm, by simpa [lastSlash] using hcut⟩
+  | cut b m hm hcut hrest _ =>
+    right
+    have := ampDel_noAmpStart hrest (isAmpCut_tail hcut)
+    subst this
+    exact ⟨[], m, _, rfl, rfl, hm, by simpa [lastSlash] using hcut⟩
+
 end Ural.Normalize
